@@ -104,6 +104,18 @@ impl<K: Eq, V> VecMap<K, V> {
       inner: self.items.iter(),
     }
   }
+  pub fn into_values(self) -> impl Iterator<Item = V> {
+    self.items.into_iter().map(|(_, v)| v)
+  }
+  pub fn into_keys(self) -> impl Iterator<Item = K> {
+    self.items.into_iter().map(|(k, _)| k)
+  }
+}
+impl<K: Eq + Borrow<Q>, Q: ?Sized + Eq, V> std::ops::Index<&Q> for VecMap<K, V> {
+  type Output = V;
+  fn index(&self, k: &Q) -> &V {
+    self.get(k).expect("no entry found for key")
+  }
 }
 
 pub struct Entry<'a, K, V> {
@@ -162,5 +174,111 @@ impl<K: Eq, V> FromIterator<(K, V)> for VecMap<K, V> {
       m.insert(k, v);
     }
     m
+  }
+}
+
+/// Association-list stand-in for `std::collections::HashSet` (same rationale as `VecMap`).
+#[derive(Clone, Debug)]
+pub struct VecSet<T> {
+  items: Vec<T>,
+}
+impl<T> Default for VecSet<T> {
+  fn default() -> Self {
+    Self { items: Vec::new() }
+  }
+}
+impl<T: Eq> VecSet<T> {
+  pub fn new() -> Self {
+    Self { items: Vec::new() }
+  }
+  pub fn len(&self) -> usize {
+    self.items.len()
+  }
+  pub fn is_empty(&self) -> bool {
+    self.items.is_empty()
+  }
+  pub fn contains<Q: ?Sized + Eq>(&self, v: &Q) -> bool
+  where
+    T: Borrow<Q>,
+  {
+    let mut i = 0;
+    while i < self.items.len() {
+      if self.items[i].borrow() == v {
+        return true;
+      }
+      i += 1;
+    }
+    false
+  }
+  pub fn insert(&mut self, v: T) -> bool {
+    if self.contains(&v) {
+      return false;
+    }
+    self.items.push(v);
+    let len = self.items.len();
+    #[allow(static_mut_refs)]
+    if let Some(f) = unsafe { INSERT_POS } {
+      let j = f(len);
+      if j < len {
+        self.items.swap(j, len - 1);
+      }
+    }
+    true
+  }
+  pub fn remove<Q: ?Sized + Eq>(&mut self, v: &Q) -> bool
+  where
+    T: Borrow<Q>,
+  {
+    let mut i = 0;
+    while i < self.items.len() {
+      if self.items[i].borrow() == v {
+        self.items.remove(i);
+        return true;
+      }
+      i += 1;
+    }
+    false
+  }
+  pub fn iter(&self) -> std::slice::Iter<'_, T> {
+    self.items.iter()
+  }
+  pub fn union<'a>(&'a self, other: &'a VecSet<T>) -> impl Iterator<Item = &'a T> + 'a {
+    self
+      .items
+      .iter()
+      .chain(other.items.iter().filter(move |v| !self.contains(*v)))
+  }
+}
+impl<T: Eq> Extend<T> for VecSet<T> {
+  fn extend<I: IntoIterator<Item = T>>(&mut self, iter: I) {
+    for v in iter {
+      self.insert(v);
+    }
+  }
+}
+impl<T: Eq> FromIterator<T> for VecSet<T> {
+  fn from_iter<I: IntoIterator<Item = T>>(iter: I) -> Self {
+    let mut s = VecSet::new();
+    s.extend(iter);
+    s
+  }
+}
+impl<T> IntoIterator for VecSet<T> {
+  type Item = T;
+  type IntoIter = std::vec::IntoIter<T>;
+  fn into_iter(self) -> Self::IntoIter {
+    self.items.into_iter()
+  }
+}
+impl<'a, T> IntoIterator for &'a VecSet<T> {
+  type Item = &'a T;
+  type IntoIter = std::slice::Iter<'a, T>;
+  fn into_iter(self) -> Self::IntoIter {
+    self.items.iter()
+  }
+}
+impl<T: Eq> PartialEq for VecSet<T> {
+  fn eq(&self, other: &Self) -> bool {
+    self.len() == other.len() && self.items.iter().all(|v| other.contains(v))
   }
 }
